@@ -22,7 +22,11 @@ import (
 func recvTestdata() string { return filepath.Join(repoRoot(), "cmd/cmaf-ingest-receiver/app/testdata") }
 
 // storedTimes returns decode time and duration of a stored media segment.
-func storedTimes(path string) (uint64, uint64, error) {
+func storedTimes(path string) (uint64, uint64, error) { return storedTimesDef(path, 0) }
+
+// storedTimesDef: trexDef is the default sample duration of the init segment's trex box (used when neither tfhd nor trun
+// carries one).
+func storedTimesDef(path string, trexDef uint32) (uint64, uint64, error) {
 	b, err := os.ReadFile(path)
 	if err != nil {
 		return 0, 0, err
@@ -33,7 +37,7 @@ func storedTimes(path string) (uint64, uint64, error) {
 	}
 	var dur uint64
 	for _, fr := range f.Segments[0].Fragments {
-		def := uint32(0)
+		def := trexDef
 		if fr.Moof.Traf.Tfhd.HasDefaultSampleDuration() {
 			def = fr.Moof.Traf.Tfhd.DefaultSampleDuration
 		}
